@@ -24,6 +24,7 @@ from common import REPO, VERIF, Check, use_repo
 
 sys.path.insert(0, str(VERIF / "harness" / "translators"))
 import tr_saveparams  # noqa: E402
+import tr_ckcallers  # noqa: E402
 
 PATHS = ("name", "new", "old")
 SUFF = {"name": "", "new": ".new", "old": ".old"}
@@ -31,12 +32,17 @@ CK = "checkpoint.json"
 
 
 _PAY = {}
+VARIANT = [0]  # 0: older generations serialise LONGER than newer ones; 1: shorter (a stale sibling that is
+#                longer / shorter than the new payload exposes writes that do not truncate / that append)
 
 
 def payload(gen: int) -> str:
-    if gen not in _PAY:
-        _PAY[gen] = _payload(gen)
-    return _PAY[gen]
+    if WRITER[0] != "save_parameters":
+        return _caller_payload(gen)
+    key = (gen, VARIANT[0])
+    if key not in _PAY:
+        _PAY[key] = _payload(gen)
+    return _PAY[key]
 
 
 def _payload(gen: int) -> str:
@@ -54,8 +60,9 @@ def params(gen: int):
     import torch
     from torchtree.core.parameter import Parameter
 
+    n = (8 - gen) if VARIANT[0] == 0 else (1 + gen)
     return [
-        Parameter("p", torch.tensor([float(gen), 0.5 * gen + 1.0], dtype=torch.float64)),
+        Parameter("p", torch.tensor([float(gen) + 0.125 * i for i in range(max(n, 1))], dtype=torch.float64)),
         Parameter("q", torch.tensor([[gen, gen + 1]], dtype=torch.int64)),
     ]
 
@@ -141,6 +148,9 @@ def run_write(d: Path, gen: int, kill_after: int | None, flags=(True, False)):
                 def flush(self):
                     return self.f.flush()
 
+                def __getattr__(self, name):  # fileno, writelines, … behave as on the real file
+                    return getattr(self.f, name)
+
                 def __enter__(self):
                     return self
 
@@ -172,12 +182,32 @@ def run_write(d: Path, gen: int, kill_after: int | None, flags=(True, False)):
                 real_unlink(a, *x, **k)
                 emit(f"X:{which(a)}")
 
+            real_os_open, real_fdopen = os.open, os.fdopen
+            fds = {}
+
+            def my_os_open(path, fl, *a, **k):
+                fd = real_os_open(path, fl, *a, **k)
+                p = which(path) if isinstance(path, (str, os.PathLike)) else None
+                if p is not None and (fl & (os.O_WRONLY | os.O_RDWR)):
+                    fds[fd] = p
+                    # "o:" = opened for writing WITHOUT truncation: no such operation in the model
+                    emit(("O:" if fl & os.O_TRUNC else "o:") + p)
+                return fd
+
+            def my_fdopen(fd, *a, **k):
+                f = real_fdopen(fd, *a, **k)
+                return Proxy(f, fds[fd]) if fd in fds else f
+
             builtins.open = my_open
+            os.open, os.fdopen = my_os_open, my_fdopen
             os.rename, os.replace, os.remove, os.unlink = my_rename, my_replace, my_remove, my_unlink
             import torchtree.core.parameter_utils as pu
 
             try:
-                pu.save_parameters(CK, params(gen), safely=flags[0], overwrite=flags[1])
+                if WRITER[0] == "save_parameters":
+                    pu.save_parameters(CK, params(gen), safely=flags[0], overwrite=flags[1])
+                else:
+                    _caller_write(WRITER[0], gen)
                 os.write(w, b"END\n")
             except BaseException as e:  # the operation raised (e.g. rename of a missing file)
                 os.write(w, f"EXC:{type(e).__name__}\n".encode())
@@ -196,6 +226,53 @@ def run_write(d: Path, gen: int, kill_after: int | None, flags=(True, False)):
     tail = lines[-1] if lines and (lines[-1] == "END" or lines[-1].startswith("EXC")) else None
     events = [l for l in lines if l != tail]
     return events, tail
+
+
+WRITER = ["save_parameters"]  # or "Optimizer.save_full_state" / "MCMC.save_full_state"
+
+
+def _caller_obj(kind: str, gen: int):
+    """a real Optimizer / MCMC object whose checkpoint is CK and whose state depends on `gen`"""
+    import torch
+
+    ps = params(gen)
+    if kind == "Optimizer.save_full_state":
+        from torchtree.optim.optimizer import Optimizer
+
+        opt = torch.optim.SGD([p.tensor for p in ps[:1]], lr=0.5)
+        o = Optimizer("opt", ps, None, opt, 10, checkpoint=CK)
+        o._epoch = gen
+        return o
+    from torchtree.inference.mcmc.mcmc import MCMC
+
+    m = MCMC("mcmc", None, [], 10, checkpoint=CK)
+    m.parameters = ps
+    m._epoch = gen
+    return m
+
+
+def _caller_write(kind: str, gen: int):
+    o = _caller_obj(kind, gen)
+    if kind == "Optimizer.save_full_state":
+        o.save_full_state(o.checkpoint)  # as Optimizer._run calls it
+    else:
+        o.save_full_state()
+
+
+_CPAY = {}
+
+
+def _caller_payload(gen: int) -> str:
+    """what a complete checkpoint written by the current caller looks like"""
+    key = (WRITER[0], gen, VARIANT[0])
+    if key not in _CPAY:
+        from torchtree.core.parameter_encoder import ParameterEncoder
+
+        o = _caller_obj(WRITER[0], gen)
+        st = {"id": o.id, "type": WRITER[0].split(".")[0]}
+        st.update(o.state_dict())
+        _CPAY[key] = json.dumps([st] + o.parameters, cls=ParameterEncoder, indent=2)
+    return _CPAY[key]
 
 
 def collapse(events):
@@ -242,26 +319,112 @@ def inv_pred(st: str) -> bool:
     return (st[0] == "C" or st[2] == "C") and st[0] != "T"
 
 
+def explore(ck: Check, drv, writer: str, variant: int, depth: int, states, tmp_root: Path, worst: list):
+    """crash enumeration of the real `writer` from `states`, histories up to `depth` consecutive interrupted
+    writes; compares with the model (driver) and evaluates the property's predicate on the real directory"""
+    WRITER[0], VARIANT[0] = writer, variant
+    tag = f"{writer}/v{variant}"
+    frontier = []
+    for st in states:
+        d0 = Path(tempfile.mkdtemp(prefix="b-", dir=tmp_root))
+        materialise(d0, st, {"name": 1, "new": 0, "old": 0})
+        full_events, tail = run_write(_clone(d0, tmp_root), 2, None)
+        pred_ops = None
+        if drv:
+            rep = drv.ask(f"prog 1 0 {st}")
+            if rep != "bad-op":
+                body = rep.split(" states ")[0][4:]
+                pred_ops = body.split(";") if body else []
+        if pred_ops is not None:
+            got = collapse(full_events)
+            model_raises = _raises(drv, st, pred_ops)
+            want = pred_ops[:-1] if model_raises else pred_ops
+            if got != want or (tail != "END") != model_raises:
+                ck.mismatch("operation trace differs from generated plan",
+                            {"writer": writer, "state": st, "impl": got, "impl_end": tail, "model": pred_ops})
+        for k in kill_points(full_events) + [None]:
+            d = _clone(d0, tmp_root)
+            events, _t = run_write(d, 2, k) if k != 0 else ([], None)
+            got_st, _g = classify(d, 3)
+            hist = [{"from": st, "kill_after": k, "events": events, "writer": writer, "variant": variant}]
+            ck.case(key=(tag, st, k), nontrivial=k != 0,
+                    sample={"writer": writer, "initial": st, "crash_after_op": k, "ops": collapse(events), "dir_after": got_st},
+                    bucket=f"{tag}/depth1/{'inv' if inv_pred(st) else 'noinv'}")
+            if drv:
+                rep = drv.ask("run " + st + "".join(" " + e for e in collapse(events)))
+                if rep == "bad-op" or rep.split()[-1] != got_st:
+                    ck.mismatch("directory state after crash differs from model",
+                                {"history": hist, "impl": got_st, "model": rep})
+            if inv_pred(st):
+                if not safe_pred(got_st):
+                    worst.append((hist, got_st))
+                if st[0] == "C" and k is not None and depth > 1:
+                    frontier.append((d, got_st, hist))
+                    continue
+            shutil.rmtree(d, ignore_errors=True)
+        shutil.rmtree(d0, ignore_errors=True)
+    gen = 3
+    for level in range(2, depth + 1):
+        nxt, seen = [], set()
+        for d, st, hist in frontier:
+            keyh = (tag, st, tuple((h["from"], h["kill_after"]) for h in hist))
+            full_events, _ = run_write(_clone(d, tmp_root), gen, None)
+            for k in kill_points(full_events) + [None]:
+                if k == 0:
+                    continue
+                d2 = _clone(d, tmp_root)
+                events, _t = run_write(d2, gen, k)
+                got_st, _g = classify(d2, gen + 1)
+                h2 = hist + [{"from": st, "kill_after": k, "events": events, "writer": writer, "variant": variant}]
+                ck.case(key=keyh + (k,), bucket=f"{tag}/depth{level}")
+                if drv:
+                    rep = drv.ask("run " + st + "".join(" " + e for e in collapse(events)))
+                    if rep == "bad-op" or rep.split()[-1] != got_st:
+                        ck.mismatch("directory state after crash differs from model",
+                                    {"history": h2, "impl": got_st, "model": rep})
+                if not safe_pred(got_st):
+                    worst.append((h2, got_st))
+                # continue only from abstractly new states: the model is a function of the abstract state and the
+                # correspondence above checks that the implementation is too
+                if level < depth and k is not None and got_st not in seen:
+                    seen.add(got_st)
+                    nxt.append((d2, got_st, h2))
+                else:
+                    shutil.rmtree(d2, ignore_errors=True)
+            shutil.rmtree(d, ignore_errors=True)
+        frontier = nxt
+        gen += 1
+    for d, _s, _h in frontier:
+        shutil.rmtree(d, ignore_errors=True)
+
+
 def run(ck: Check):
     ck.rule = (
-        "one case = one (initial directory state, history of writes, crash point) executed by the REAL "
-        "save_parameters in a forked child SIGKILLed after its k-th file-system operation; distinct = distinct "
-        "(initial state, crash history); non-trivial = at least one operation executed before the crash"
+        "one case = one (writer, initial directory state, history of writes, crash point) executed by the REAL "
+        "save_parameters / Optimizer.save_full_state / MCMC.save_full_state in a forked child SIGKILLed after its "
+        "k-th file-system operation; distinct = distinct (writer, payload variant, initial state, crash history); "
+        "non-trivial = at least one operation executed before the crash"
     )
     ck.assumptions += [
         "POSIX rename/remove are atomic; a file opened with 'w' is truncated from that instant; data reach the "
         "file no later than close (a crash before close leaves a truncated file) — modelled, not verified",
         "file contents are abstracted to absent / truncated / complete(generation)",
-        "only the default flags safely=True, overwrite=False are covered by the theorems (the flags every caller "
-        "that rewrites one checkpoint file uses); the direct-write branch is covered by the correspondence only",
+        "the theorems cover the default flags safely=True, overwrite=False; callers_use_safe_flags (generated call-site "
+        "table) shows every call that rewrites the run's checkpoint file uses them; per-epoch files (checkpoint_all) "
+        "are written once each and are outside the property",
     ]
     lean_src, tr_ok, note = tr_saveparams.translate(REPO)
+    callers_src, c_ok, c_notes, sites = tr_ckcallers.translate(REPO)
     if not tr_ok:
         ck.notes.append("translator: " + note)
+    if not c_ok:
+        ck.notes.append("caller scan: " + "; ".join(c_notes))
     ok, broken = ck.lean_side(
-        {"TTGen/C18_SavePlan.lean": lean_src}, ["TTGen.C18_SavePlan", "TTProofs.Props.C18", "drv_c18"], "TTProofs/Props/C18.lean"
+        {"TTGen/C18_SavePlan.lean": lean_src, "TTGen/C18_Callers.lean": callers_src},
+        ["TTGen.C18_SavePlan", "TTGen.C18_Callers", "TTProofs.Props.C18", "drv_c18"], "TTProofs/Props/C18.lean",
     )
     ck.extra["translator_recognised_source"] = tr_ok
+    ck.extra["call_sites"] = [list(map(str, x)) for x in sites]
 
     drv = None
     try:
@@ -274,85 +437,16 @@ def run(ck: Check):
     tmp_root = Path(tempfile.mkdtemp(prefix="c18-"))
     worst = []  # failing histories on the implementation
     try:
-        # ---- single interrupted write from all 27 states: model == implementation, op trace == plan
-        frontier = []
-        for st in all_states:
-            d0 = tmp_root / "base"
-            shutil.rmtree(d0, ignore_errors=True)
-            d0.mkdir()
-            gens = {"name": 1, "new": 0, "old": 0}
-            materialise(d0, st, gens)
-            full_events, tail = run_write(_clone(d0, tmp_root), 2, None)
-            pred_ops = None
-            if drv:
-                rep = drv.ask(f"prog 1 0 {st}")
-                if rep != "bad-op":
-                    pred_ops = rep.split(" states ")[0][4:].split(";") if rep.split(" states ")[0][4:] else []
-            if pred_ops is not None:
-                got = collapse(full_events)
-                # when the model says the last operation raises, the implementation must have died there
-                model_raises = _raises(drv, st, pred_ops)
-                want = pred_ops[:-1] if model_raises else pred_ops
-                if got != want or (tail != "END") != model_raises:
-                    ck.mismatch("operation trace differs from generated plan",
-                                {"state": st, "impl": got, "impl_end": tail, "model": pred_ops})
-            for k in kill_points(full_events):
-                d = _clone(d0, tmp_root)
-                events, tail_k = run_write(d, 2, k if k > 0 else None) if k > 0 else ([], None)
-                got_st, got_gens = classify(d, 3)
-                hist = [{"from": st, "kill_after": k, "events": events}]
-                ck.case(key=(st, k), nontrivial=k > 0,
-                        sample={"initial": st, "crash_after_op": k, "ops": collapse(events), "dir_after": got_st},
-                        bucket=f"depth1/{'inv' if inv_pred(st) else 'noinv'}")
-                if drv:
-                    rep = drv.ask("run " + st + "".join(" " + e for e in collapse(events)))
-                    model_st = rep.split()[-1]
-                    if rep == "bad-op" or model_st != got_st:
-                        ck.mismatch("directory state after crash differs from model",
-                                    {"history": hist, "impl": got_st, "model": rep})
-                if inv_pred(st) and st[0] == "C":
-                    if not safe_pred(got_st):
-                        worst.append((hist, got_st))
-                    frontier.append((d, got_st, hist))
-                else:
-                    shutil.rmtree(d, ignore_errors=True)
-            shutil.rmtree(d0, ignore_errors=True)
-        # ---- histories of consecutive interrupted writes, starting from an existing checkpoint
-        gen = 3
-        for level in range(2, depth + 1):
-            nxt = []
-            seen = set()
-            for d, st, hist in frontier:
-                keyh = (st, tuple((h["from"], h["kill_after"]) for h in hist))
-                full_events, _ = run_write(_clone(d, tmp_root), gen, None)
-                for k in kill_points(full_events):
-                    if k == 0:
-                        continue
-                    d2 = _clone(d, tmp_root)
-                    events, _t = run_write(d2, gen, k)
-                    got_st, _g = classify(d2, gen + 1)
-                    h2 = hist + [{"from": st, "kill_after": k, "events": events}]
-                    ck.case(key=keyh + (k,), sample=None, bucket=f"depth{level}")
-                    if drv:
-                        rep = drv.ask("run " + st + "".join(" " + e for e in collapse(events)))
-                        if rep == "bad-op" or rep.split()[-1] != got_st:
-                            ck.mismatch("directory state after crash differs from model",
-                                        {"history": h2, "impl": got_st, "model": rep})
-                    if not safe_pred(got_st):
-                        worst.append((h2, got_st))
-                    # continue only from abstractly new (state, level) pairs: the model is a function of the
-                    # abstract state, and the correspondence above checks the implementation is too
-                    if level < depth and (got_st,) not in seen:
-                        seen.add((got_st,))
-                        nxt.append((d2, got_st, h2))
-                    else:
-                        shutil.rmtree(d2, ignore_errors=True)
-                shutil.rmtree(d, ignore_errors=True)
-            frontier = nxt
-            gen += 1
-        for d, _s, _h in frontier:
-            shutil.rmtree(d, ignore_errors=True)
+        explore(ck, drv, "save_parameters", 0, depth, all_states, tmp_root, worst)
+        explore(ck, drv, "save_parameters", 1, 1, all_states, tmp_root, worst)
+        inv_states = [s for s in all_states if inv_pred(s)]
+        for writer in ("Optimizer.save_full_state", "MCMC.save_full_state"):
+            try:
+                explore(ck, drv, writer, 0, 2 if ck.thorough() else 1, inv_states, tmp_root, worst)
+            except Exception as e:  # the caller could not be constructed/driven: correspondence broken, not a crash
+                ck.mismatch("caller could not be driven", {"writer": writer, "error": f"{type(e).__name__}: {e}"})
     finally:
+        WRITER[0], VARIANT[0] = "save_parameters", 0
         shutil.rmtree(tmp_root, ignore_errors=True)
         if drv:
             drv.close()
@@ -360,19 +454,20 @@ def run(ck: Check):
     ck.extra["depth_of_consecutive_interrupted_writes"] = depth
     # ---- verdict
     if worst:
-        worst.sort(key=lambda x: (len(x[0]), sum(h["kill_after"] for h in x[0])))
+        worst.sort(key=lambda x: (len(x[0]), sum((h["kill_after"] or 10**6) for h in x[0])))
         hist, st = worst[0]
-        what = ("checkpoint name refers to a truncated file" if st[0] == "T" else "no complete checkpoint survives")
+        what = ("checkpoint name refers to a truncated/corrupt file" if st[0] == "T" else "no complete checkpoint survives")
         ck.violation(
-            "save_parameters:" + ("truncated-name" if st[0] == "T" else "lost-checkpoint"),
-            f"{what} after crash history {[ (h['from'], h['kill_after']) for h in hist ]} -> {st}",
+            hist[-1]["writer"] + ":" + ("truncated-name" if st[0] == "T" else "lost-checkpoint"),
+            f"{what} after crash history {[(h['from'], h['kill_after']) for h in hist]} of {hist[-1]['writer']} -> {st}",
             {"history": hist, "dir_after": st, "broken_obligations": broken, "replay_cmd": "./check C18 --replay <this file>"},
         )
     elif not ok or ck.mismatches:
         ck.violation(
             "save_parameters:unproved",
             "C18 theorems or the model/implementation correspondence no longer check",
-            {"broken_obligations": broken, "mismatches": ck.mismatches[:5], "translator_note": note},
+            {"broken_obligations": broken, "mismatches": ck.mismatches[:5], "translator_note": note,
+             "caller_scan_notes": c_notes},
             found_input=False,
         )
 
@@ -397,6 +492,8 @@ def replay(path: str) -> int:
         print("replay names broken obligations only:", obj.get("broken_obligations"))
         return 1
     d = Path(tempfile.mkdtemp(prefix="c18r-"))
+    WRITER[0] = hist[0].get("writer", "save_parameters")
+    VARIANT[0] = hist[0].get("variant", 0)
     try:
         materialise(d, hist[0]["from"], {"name": 1, "new": 0, "old": 0})
         gen = 2
